@@ -9,18 +9,33 @@
 
    Every event has the same integer/boolean fields (unused ones are 0):
      op, ok   operation; FALSE when the implementation raised anything
-     y m d s  a date and second of day (input of `new`/`minus`, else observed)
-     k        offset in days / a day number argument
-     a        second of day given as input (date_dec)
+     y m d s  a date and second of day (input of `new`/`minus`/`cmp`/`api_num`,
+              else observed)
+     k        offset in days / a day number argument / a text yyyyMMdd read as
+              a number (parse, valid) / a zone (start, tz)
+     a        second of day given as input (date_dec, api_date); a format,
+              part, operator or kind code (parse, fmt, part, cmp, err, free)
+     t        second of day given as input (parse) or observed (api_num)
      r        observed integer result
      us       observed residual in microseconds (decimal day numbers)
-     b        observed boolean                                             *)
+     b        observed boolean
+
+   A trace is the life of one process (DateProc.tla): it begins with `start`
+   (the zone the process is started in; cur is not defined yet).  Besides the
+   conversions and the day arithmetic the recorded program calls the other date
+   functions of the language (parse_date, is_valid_date, format_date, the
+   date_* readers, comparisons, conversions that must fail, now / timestamp /
+   sorting) and changes the zone of the process (`tz`).  The model gives none
+   of them any influence on what follows: `zone` is a variable nothing reads,
+   and the bystanders leave cn and cs alone.  Clauses whose name starts with
+   "noise-" judge what a bystander itself returned; the property does not
+   speak about those, the harness counts their rejections as drift.        *)
 EXTENDS DateOps, TLC, Json, IOUtils
 
 Trace == ndJsonDeserialize(IOEnv.TRACE_FILE)
 
-VARIABLES l, cn, cs
-vars == <<l, cn, cs>>
+VARIABLES l, cn, cs, zone
+vars == <<l, cn, cs, zone>>
 
 Ev == Trace[l]
 Bad(why) == PrintT("@@BAD@@" \o ToJson([l |-> l, why |-> why]))
@@ -38,12 +53,34 @@ Follow(n, s) == IF Ev.ok /\ ObsValid THEN (cn' = ObsNum /\ cs' = Ev.s)
                 ELSE (cn' = n /\ cs' = s)
 Same == cn' = cn /\ cs' = cs
 
-Init == l = 1 /\ cn = FirstDay /\ cs = 0
+\* observed date of a constructor / reader: the date (n, s), to the second
+IsZone(k) == k \in 1..NZones
+\* parse_date: the text Ev.k (yyyyMMdd) with time of day Ev.t; format 1 has no time
+ParseSec == IF Ev.a = 1 THEN 0 ELSE Ev.t
+ParseNum == DayNumber(TextYear(Ev.k), TextMonth(Ev.k), TextDay(Ev.k))
+\* cmp: cur (cn, cs) against the instant (ObsNum, Ev.s) by operator Ev.a
+CmpWant == LET lt == Before(cn, cs, ObsNum, Ev.s)
+               gt == Before(ObsNum, Ev.s, cn, cs)
+           IN CASE Ev.a = 1 -> lt
+                [] Ev.a = 2 -> ~gt
+                [] Ev.a = 3 -> ~lt /\ ~gt
+                [] Ev.a = 4 -> lt \/ gt
+                [] Ev.a = 5 -> ~lt
+                [] OTHER    -> gt
+
+Init == l = 1 /\ cn = FirstDay /\ cs = 0 /\ zone = 1
 
 Step ==
   /\ l <= Len(Trace)
   /\ l' = l + 1
-  /\ CASE Ev.op = "new" ->                         \* cur = date('yyyymmddHHMMSS')
+  /\ zone' = IF Ev.op \in {"start", "tz"} /\ IsZone(Ev.k) THEN Ev.k ELSE zone
+  /\ CASE Ev.op = "start" ->                       \* a process starts in zone k; nothing evaluated yet
+            /\ Check(Ev.ok /\ IsZone(Ev.k), "start")
+            /\ cn' = FirstDay /\ cs' = 0
+       [] Ev.op = "tz" ->                          \* the zone of the process changes: no date moves
+            /\ Check(Ev.ok /\ IsZone(Ev.k), "tz")
+            /\ Same
+       [] Ev.op = "new" ->                         \* cur = date('yyyymmddHHMMSS')
             /\ Check(Ev.ok /\ ObsValid, "new")
             /\ cn' = ObsNum /\ cs' = Ev.s
        [] Ev.op = "add" ->                         \* cur = cur + k
@@ -79,6 +116,39 @@ Step ==
             /\ Same
        [] Ev.op = "back" ->                        \* (cur + k) - k == cur
             /\ Check(Ev.ok /\ Ev.b, "back")
+            /\ Same
+       [] Ev.op = "api_date" ->                    \* ckl.date.to_date(k + a/86400), cur untouched
+            /\ Check(ObsIs(Ev.k, Ev.a), "api_date")
+            /\ Same
+       [] Ev.op = "api_num" ->                     \* ckl.date.to_oa_date(datetime(y, m, d, s)), cur untouched
+            /\ Check(Ev.ok /\ ValidDate(Ev.y, Ev.m, Ev.d) /\ Ev.r = ObsNum /\ Ev.t = Ev.s
+                     /\ Ev.us <= TolMicros /\ Ev.us >= 0 - TolMicros, "api_num")
+            /\ Same
+       \* ---- the other date functions: what they return is judged as "noise-",
+       \* ---- what follows them is judged as before
+       [] Ev.op = "parse" ->                       \* cur = parse_date(text k at second t, format a)
+            /\ Check(ValidText(Ev.k) /\ ObsIs(ParseNum, ParseSec), "noise-parse")
+            /\ Follow(ParseNum, ParseSec)
+       [] Ev.op = "valid" ->                       \* is_valid_date(text k)
+            /\ Check(Ev.ok /\ (Ev.b <=> ValidText(Ev.k)), "noise-valid")
+            /\ Same
+       [] Ev.op = "fmt" ->                         \* format_date(cur, ..) read back; form 4 shows no time
+            /\ Check(Ev.ok /\ ObsValid /\ <<Ev.y, Ev.m, Ev.d>> = FromDayNumber(cn)
+                     /\ (Ev.a = 4 \/ Ev.s = cs), "noise-fmt")
+            /\ Same
+       [] Ev.op = "str" ->                         \* string(cur) read back
+            /\ Check(ObsIs(cn, cs), "noise-str")
+            /\ Same
+       [] Ev.op = "part" ->                        \* date_year(cur) .. date_second(cur)
+            /\ Check(Ev.ok /\ Ev.a \in 1..6 /\ Ev.r = Fields(cn, cs)[Ev.a], "noise-part")
+            /\ Same
+       [] Ev.op = "cmp" ->                         \* cur < date(y,m,d at s) etc.
+            /\ Check(Ev.ok /\ ObsValid /\ (Ev.b <=> CmpWant), "noise-cmp")
+            /\ Same
+       [] Ev.op = "err" ->                         \* a conversion that must fail with an error of the language
+            /\ Check(Ev.ok /\ Ev.r = 1, "noise-err")
+            /\ Same
+       [] Ev.op = "free" ->                        \* now, timestamp, sorting ...: nothing is predicted
             /\ Same
        [] OTHER -> Same /\ Bad("unknown-op")
   /\ (l = Len(Trace) => PrintT("@@DONE@@" \o ToJson([n |-> l])))
